@@ -212,14 +212,14 @@ def gen(rng, tier):
                 continue
             if tier == "quick" and n == 4 and rng.random() > 0.6:
                 continue
-            if tier != "quick" and n == 6 and rng.random() > 0.05:
+            if tier != "quick" and n == 6 and rng.random() > 0.01:
                 continue
-            if tier != "quick" and n == 5 and rng.random() > 0.5:
+            if tier != "quick" and n == 5 and rng.random() > 0.15:
                 continue
             cases.append(word_case(word))
-    for _ in range(1500 if tier == "quick" else 40000):
+    for _ in range(1500 if tier == "quick" else 15000):
         cases.append(chain_scenario(rng))
-    for _ in range(1000 if tier == "quick" else 40000):
+    for _ in range(1000 if tier == "quick" else 15000):
         cases.append(K.rand_program(rng, rng.randrange(1, 7), rng.randrange(2, 21), weights=W, cancellers=False))
     return cases
 
@@ -264,11 +264,11 @@ SPEC = Spec(
     nontrivial=lambda c, o: "R" in o,
     histogram=histogram,
     describe=lambda c: {"n_deferreds": len(c["canc"]), "ops": c["ops"][:14]},
-    rule="every program of length <= 3, 60% of length 4, 4% of length 5 (quick) / <= 4, 50% of 5, 5% of 6 over a "
+    rule="every program of length <= 3, 60% of length 4, 4% of length 5 (quick) / <= 4, 15% of 5, 1% of 6 over a "
          "10-letter alphabet (thorough) on two Deferreds {outer callback returns inner, add pass-through callback to "
-         "inner / outer, fire inner / outer, pause / unpause inner / outer}; 1 500 (40 000) chain scenarios (2-5 "
+         "inner / outer, fire inner / outer, pause / unpause inner / outer}; 1 500 (15 000) chain scenarios (2-5 "
          "Deferreds waiting on each other, late callbacks, pauses on waiting Deferreds, unbalanced unpauses); 1 000 "
-         "(40 000) random programs over 1-6 Deferreds, 2-20 operations, callback behaviours {value, None, Failure, "
+         "(15 000) random programs over 1-6 Deferreds, 2-20 operations, callback behaviours {value, None, Failure, "
          "Deferred d_i, raise, pass-through} on either or both sides.  non-trivial = at least one user callback ran; "
          "distinct by (case, observation)",
     trusted=["hand-written kernel model coq/Lib/DeferredK.v (tied by this correspondence run only)",
